@@ -5,6 +5,7 @@ import (
 	"fmt"
 	"runtime/debug"
 	"strings"
+	"sync/atomic"
 	"testing"
 
 	"github.com/bufbuild/protocompile/ast"
@@ -106,7 +107,11 @@ func check12(r *vlib.Run, id string, text []byte) {
 		if len(o.errs) > 0 && pt == nil {
 			pt = newPosTable(data)
 		}
+		posReported := false
 		for _, e := range o.errs {
+			if posReported {
+				break // one position finding per input and policy is enough
+			}
 			for k, p := range []ast.SourcePos{e.GetPosition(), e.End()} {
 				prob := errPosProblem(pt, p)
 				if prob == "" {
@@ -132,6 +137,7 @@ func check12(r *vlib.Run, id string, text []byte) {
 				}
 				r.Violation("parser.error-position-outside-file", prob+cause, id,
 					w(map[string]any{"policy": policy, "which": which, "error": e.Error(), "line": p.Line, "col": p.Col, "offset": p.Offset, "lines_in_file": pt.nLines}))
+				posReported = true
 				break
 			}
 		}
@@ -169,6 +175,7 @@ var soupVocab = []string{
 	"// c\n", "//", "/* c */", "/*", "*/", "/**/", "/*/", "// nul \x00\n", "/* nul \x00 */",
 	" ", "\n", "\t", "\r", "\f", "\v", "\r\n", "\x00", "\x01", "\x7f", "\x80", "\xff", "\xc3", "\xc3\xa9", "\xe2\x82", "\xf0\x9f\x98\x80", "\xed\xa0\x80", "\xef\xbb\xbf", "\xfe\xff",
 	"= 1;", "= 1 [", "default =", "[default = 1]", "[(a).b = {", "{ a: 1 }", "< a: 1 >", "[a.b/c.d]", "returns (", "map<", "map<string,", ">", "group G = 1 {", "to max;", "reserved \"a\"",
+	"extensions 1", "extensions 1 to 2 [(o)=1]", "[a=1]", "[a]", "[a,", "= 1 [a]", "\"\\\xff", "\"\\x\xff\"", "\"\\u12\xff",
 	"syntax = \"proto3\";", "edition = \"2023\";", "message M {", "enum E {", "service S {", "oneof o {", "extend E {", "rpc R(", "option (o) =", "import \"a\";", "package p;",
 }
 
@@ -243,6 +250,29 @@ func genHostileInsert(rng *vlib.RNG, base []byte) []byte {
 		}
 	}
 	return out
+}
+
+// shapes12: small inputs around error-recovery productions and lexer error paths.
+var shapes12 = []string{
+	"message M { extensions 1 [a=1] }", "message M { extensions 1 to 2 [a=1]", "message M { extensions 1 }", "message M { extensions 1 to }",
+	"message M { optional int32 f = 1 [a]; }", "message M { optional int32 f = 1 [a, b=1]; }", "enum E { A = 0 [a]; }", "message M { optional int32 f = 1 []; }",
+	"message M { optional int32 f = 1 [a=1,]; }", "message M { optional int32 f = 1 [a=] }", "\"\\\xff", "x = \"\\\xff\"", "syntax = \"a\\\xffb\";", "\"\\x\xff\xff\"",
+	"\"\\u\xff\xff\xff\xff\"", "'\\U\xff'", "\"\\", "\"\\x", "\"\\u1", "\"\\U1234567", "'", "\"", "\"\n", "\"a\n\"b\n\"c", "syntax = \"proto3\nmessage M {}\nmessage N { int32 x = 1 }\n",
+	"option a. = 1;", "option .a = 1;", "option (a. = 1;", "option (a).= 1;", "option a = ;", "option a = {a:};", "option a = {[a]:1};", "option a = {[a/]:1};", "option a = {[/b]:1};",
+	"option a = {a:[};", "option a = {a:[,]};", "option a = {a:<};", "option a = -;", "option a = -x;", "option a = - -1;", "package ;", "package a.;", "package .a;", "package a..b;",
+	"import ;", "import public;", "import \"a\"", "import weak public \"a\";", "syntax;", "syntax = ;", "syntax = proto3;", "edition = 2023;", "syntax = \"proto3\" message M{}",
+	"message { }", "message M", "message M {", "message M { int32 }", "message M { int32 x }", "message M { int32 x = }", "message M { int32 x = 1", "message M { int32 x = -1; }",
+	"message M { map<> m = 1; }", "message M { map<string> m = 1; }", "message M { map<string,> m = 1; }", "message M { map<string,string m = 1; }", "message M { repeated map<string,string> m = 1; }",
+	"message M { oneof { } }", "message M { oneof o { } }", "message M { oneof o { option } }", "message M { oneof o { repeated int32 x = 1; } }", "message M { oneof o { group G = 1 { } } }",
+	"message M { group G = 1 { } }", "message M { optional group g = 1 { } }", "message M { optional group = 1 { } }", "message M { optional group G { } }", "message M { optional group G = 1 [a=1] }",
+	"message M { reserved ; }", "message M { reserved 1 to ; }", "message M { reserved \"a\", 1; }", "message M { reserved a, \"b\"; }", "message M { reserved 1 to max to 3; }", "message M { reserved -1; }",
+	"enum E { }", "enum E { A }", "enum E { A = }", "enum E { A = 1", "enum E { A = -; }", "enum E { reserved -5 to -; }", "enum E { option }", "enum { A = 0; }",
+	"service S { rpc }", "service S { rpc M }", "service S { rpc M ( }", "service S { rpc M () returns (); }", "service S { rpc M (A) returns }", "service S { rpc M (stream) returns (stream); }",
+	"service S { rpc M (A) returns (B) { option } }", "service S { rpc M (A) returns (B) { rpc } }", "service { }", "extend { }", "extend A { }", "extend A { int32 }", "extend A { oneof o { int32 x = 1; } }",
+	"extend A { map<string,string> m = 1; }", "extend A { optional group G = 1 { extend B { } } }", ";;;message;;;", "} } }", "{ { {", "] ) >", "= = =", "\x00", "\xef\xbb", "\xef\xbb\xbf\xef\xbb\xbf", "\xff\xfe", "\xfe\xff\x00m",
+	"/*", "/*/", "/**", "/* \x00 */ message M {}", "// \x00\nmessage M {}", "//", "/", "/ /", "\\", "#", "message M {} #", "0", "-", "1 2 3", ". . .", "0x", "0xg", "1e", "1e+", "08", "1.2.3", "1__2", "99999999999999999999999",
+	"message M { int32 x = 99999999999999999999; }", "message M { int32 x = 0x1ffffffffffffffff; }", "message M { int32 x = 1.5; }", "message M { int32 x = 08; }", "message M { extensions 1 to 99999999999999999999; }",
+	"enum E { A = 99999999999999999999; }", "enum E { A = -99999999999999999999; }", "message M { reserved 99999999999999999999; }", "message M { reserved 1 to -1; }", "enum E { reserved 5 to 1; }",
 }
 
 type deepCase struct {
@@ -367,6 +397,7 @@ func TestC12(t *testing.T) {
 	}
 	stages := []stage{
 		{"hand", len(handTexts), func(i int, _ *vlib.RNG) []byte { return []byte(handTexts[i]) }},
+		{"shapes", len(shapes12), func(i int, _ *vlib.RNG) []byte { return []byte(shapes12[i]) }},
 		{"random", r.N(12000, 500000), func(_ int, rng *vlib.RNG) []byte { return genRandomBytes(rng) }},
 		{"soup", r.N(14000, 600000), func(_ int, rng *vlib.RNG) []byte { return genSoup(rng) }},
 		{"trunc", len(truncs), func(i int, _ *vlib.RNG) []byte { t := truncs[i]; return small[t.file].Text[:t.off] }},
@@ -391,6 +422,7 @@ func TestC12(t *testing.T) {
 			}
 		}
 		r.Begin(st.name, map[string]any{"stage": st.name, "cases": st.n, "note": "one input of this stage (this batch's share) killed the process; replay runs the whole stage"})
+		var done atomic.Int64
 		r.Par(st.n, func(i int) {
 			id := fmt.Sprintf("%s/%d", st.name, i)
 			if r.Replaying() && !whole && !r.Want(id) {
@@ -402,9 +434,10 @@ func TestC12(t *testing.T) {
 				key = string(text)
 			}
 			r.Eval(key)
+			done.Add(1)
 			check12(r, id, text)
 		})
-		r.ClassN("inputs."+st.name, int64(st.n))
+		r.ClassN("inputs."+st.name, done.Load())
 	}
 
 	// deep nesting / long tokens: coarse cases, run one at a time so that a
